@@ -192,10 +192,19 @@ func cmdBatch(args []string) {
 	}
 	sort.Strings(keys)
 	replayDir := filepath.Join(verifRoot, "replays", *prop)
+	const maxReported = 8
 	for i, k := range keys {
 		fd := byClass[k]
 		nviol++
 		exit = 1
+		if i >= maxReported {
+			// the culprit label of a block-level check lists the block's message types, so one
+			// defect can show up under hundreds of labels: report a handful, count the rest
+			if i == maxReported {
+				fmt.Printf("note: %d further violation classes of %s (same checks, other culprit labels) are counted but not written as replay files\n", len(keys)-maxReported, *prop)
+			}
+			continue
+		}
 		_ = os.MkdirAll(replayDir, 0o755)
 		path := filepath.Join(replayDir, fmt.Sprintf("%d-%d.json", fd.res.Seed, i))
 		if i < 3 && fd.res.TracePath != "" {
@@ -209,6 +218,40 @@ func cmdBatch(args []string) {
 		fmt.Printf("VIOLATION property=%s replay=%s\n", *prop, path)
 		fmt.Printf("  class=%s culprit=%s seed=%d height=%d\n  %s\n", fd.v.Class(), fd.v.Culprit, fd.res.Seed, fd.v.Height, strings.ReplaceAll(truncate(fd.v.Detail, 1500), "\n", "\n  "))
 	}
+	// directed regression histories: the minimised replay of every defect of this property that
+	// was found and repaired (regressions/<property>/*.json) is re-executed against the current
+	// tree; the recorded violation must not come back.
+	regs, _ := filepath.Glob(filepath.Join(verifRoot, "regressions", *prop, "*.json"))
+	sort.Strings(regs)
+	regHit := 0
+	for _, f := range regs {
+		cmd := exec.Command(self, "replay", f)
+		out, err := cmd.CombinedOutput()
+		code := 0
+		if err != nil {
+			if ee, ok := err.(*exec.ExitError); ok {
+				code = ee.ExitCode()
+			} else {
+				code = 2
+			}
+		}
+		switch code {
+		case 0:
+		case 1:
+			regHit++
+			nviol++
+			exit = 1
+			for _, ln := range strings.Split(string(out), "\n") {
+				if strings.HasPrefix(ln, "VIOLATION") || strings.HasPrefix(ln, "  class=") || strings.HasPrefix(ln, "  ") && !strings.Contains(ln, "goroutine") {
+					fmt.Println(truncate(ln, 600))
+				}
+			}
+		default:
+			fmt.Printf("regression replay %s could not be executed (exit %d, not a violation):\n%s\n", f, code, truncate(string(out), 2000))
+			os.Exit(2)
+		}
+	}
+	regressionInfo = map[string]any{"replays_executed": len(regs), "violations_reproduced": regHit}
 	ids := make([]string, 0, len(knownSeen))
 	for id := range knownSeen {
 		ids = append(ids, id)
@@ -255,3 +298,6 @@ func sumCounter(rs []*RunResult, k string) float64 {
 
 // ledgerDependent: properties whose oracle needs the bank-event ledger.
 var ledgerDependent = map[string]bool{"C02": true, "C03": true, "C04": true, "C12": true, "C15": true}
+
+// regressionInfo: filled by cmdBatch for the evidence file.
+var regressionInfo map[string]any
